@@ -19,6 +19,8 @@ def run(ctx: Ctx) -> None:
     t16_losses.run_overlap(ctx)
     t16_losses.run_weight_shapes(ctx)
     t16_losses.run_definitions(ctx)
+    t16_losses.run_module_functional(ctx)
+    ctx.floor("T16.module-functional", 10)
     ctx.floor("T16.definition", 2)
     ctx.floor("T16.mask", 6)
     ctx.floor("T16.reduction", 6)
